@@ -370,7 +370,90 @@ class HLightSub(HLight):
         return "HLightSub(%r)" % (self.name,)
 
 
+class HNodeUnhash(HNode):
+    """What `@dataclass` (eq=True) gives: value equality and no hash at all."""
+
+    def __eq__(self, other):
+        return isinstance(other, HNodeUnhash) and _eqkey(self) == _eqkey(other)
+
+    def __ne__(self, other):
+        return not self.__eq__(other)
+
+    __hash__ = None
+
+
+class HMixNo(HMix):
+    """Always falsy (the NodeMixin twin of HLightNo)."""
+
+    def __bool__(self):
+        return False
+
+    def __repr__(self):
+        return "HMixNo(%r)" % (self.name,)
+
+
+class HMixBag(_Bag, HMix):
+    """Container-like (the NodeMixin twin of HLightBag)."""
+
+    def __repr__(self):
+        return "HMixBag(%r)" % (self.name,)
+
+
+class HMixProxy(HMix):
+    """A record-like node that keeps all its attributes - the mixin's private ones included - in a backing
+    store of its own, through __setattr__/__getattr__ (as SymlinkNodeMixin itself does with its target)."""
+
+    def __init__(self, name, parent=None, children=None, **kwargs):
+        object.__setattr__(self, "_store", {})
+        self._store.update(kwargs)
+        self.name = name
+        self.parent = parent
+        if children:
+            self.children = children
+
+    def __setattr__(self, key, value):
+        if key in ("parent", "children"):
+            object.__setattr__(self, key, value)  # the mixin's properties
+        else:
+            object.__getattribute__(self, "_store")[key] = value
+
+    def __getattr__(self, key):
+        try:
+            return object.__getattribute__(self, "_store")[key]
+        except KeyError:
+            raise AttributeError(key)
+
+    def __delattr__(self, key):
+        if key in ("parent", "children"):
+            object.__delattr__(self, key)
+            return
+        try:
+            del object.__getattribute__(self, "_store")[key]
+        except KeyError:
+            raise AttributeError(key)
+
+    def __repr__(self):
+        return "HMixProxy(%r)" % (self.name,)
+
+
+class HMixPath(HMix):
+    """A class that uses the name `path` for a helper of its own (a string).  Navigation attributes built on
+    `path` are then the user's business; parent/children assignment must work as for any other class."""
+
+    @property
+    def path(self):
+        return "/" + "/".join(reversed([str(n.name) for n in self.iter_path_reverse()]))
+
+    def __repr__(self):
+        return "HMixPath(%r)" % (self.name,)
+
+
 CLASSES = {
+    "HNodeUnhash": HNodeUnhash,
+    "HMixNo": HMixNo,
+    "HMixBag": HMixBag,
+    "HMixProxy": HMixProxy,
+    "HMixPath": HMixPath,
     "HNodeRO": HNodeRO,
     # the library's own classes, exactly as shipped (no hook routing: used where no fault is injected)
     "PNode": Node,
@@ -397,6 +480,11 @@ CLASSES = {
     "HLightDict": HLightDict,
 }
 FAMILY = {
+    "HNodeUnhash": "node",
+    "HMixNo": "node",
+    "HMixBag": "node",
+    "HMixProxy": "node",
+    "HMixPath": "node",
     "HNodeRO": "node",
     "PNode": "node",
     "PAny": "node",
